@@ -47,7 +47,8 @@ pub open spec fn ctx_is_new(c: Context, scope: Scope) -> bool { c.scope == scope
 /// the table is usable: there is a current context and every context has an open scope (what the unwrap()s of
 /// current_context / Context::define / leave_scope rely on)
 pub open spec fn sym_wf(t: SymbolTable) -> bool {
-    t.contexts@.len() >= 1 && forall|i: int| 0 <= i < t.contexts@.len() ==> ctx_view(#[trigger] t.contexts@[i]).len() >= 1 && ctx_sized(t.contexts@[i])
+    t.contexts@.len() >= 1 && t.contexts@[0].scope == Scope::Global
+        && forall|i: int| 0 <= i < t.contexts@.len() ==> ctx_view(#[trigger] t.contexts@[i]).len() >= 1 && ctx_sized(t.contexts@[i])
 }
 /// the size a context reports (the number of slots a call reserves for a function) covers every slot in use, and
 /// slots fit their 16-bit operands
@@ -59,6 +60,10 @@ pub open spec fn sym_depth(t: SymbolTable) -> int { ctx_view(t.contexts@.last())
 /// the same for the ENCLOSING contexts, outermost first: what leave_context returns to
 pub open spec fn sym_outer(t: SymbolTable) -> Seq<int> {
     Seq::new((t.contexts@.len() - 1) as nat, |i: int| ctx_view(t.contexts@[i]).len() as int)
+}
+/// the sizes the ENCLOSING contexts report, outermost first (untouched while an inner function is compiled)
+pub open spec fn sym_outer_sizes(t: SymbolTable) -> Seq<int> {
+    Seq::new((t.contexts@.len() - 1) as nat, |i: int| t.contexts@[i].max_size as int)
 }
 pub open spec fn sym_in_function(t: SymbolTable) -> bool { t.contexts@.len() > 1 }
 /// what a name means: the current context first, then - only inside a function - the GLOBAL context (index 0);
@@ -200,4 +205,13 @@ pub proof fn lemma_define_keeps_size(c: Context, post: Context, name: Seq<char>)
     ensures ctx_sized(post), ctx_view(post).len() == ctx_view(c).len()
 {
     lemma_declare_takes_over(ctx_view(c), name);
+}
+
+/// O02.slot  a name that resolves to a LOCAL symbol was found in the current context (the only fallback is the global
+/// context, whose symbols are global), so its slot lies below the size the current context reports
+pub proof fn lemma_local_symbol_is_current(t: SymbolTable, name: Seq<char>)
+    requires sym_wf(t)
+    ensures sym_resolve(t, name) matches Some(s) ==> (s.scope == Scope::Local ==> sym_in_current(t, name) && (s.index as int) < sym_max_size(t))
+{
+    lemma_current_slot_in_range(t, name);
 }
